@@ -4,6 +4,7 @@
 use crate::cli_common::*;
 use crate::inv::*;
 use crate::sinks::*;
+use crate::sinks::{FailSink, Fault};
 use core::convert::Infallible;
 use embedded_cli::__verif::*;
 use embedded_cli::cli::{Cli, CliHandle};
@@ -110,4 +111,79 @@ fn glue_ascii() {
 #[kani::unwind(18)]
 fn glue_ascii_v1() {
     glue_body(true, Some(1));
+}
+
+// ----------------------------------------------------------------------------- with a failing sink
+
+fn build_fail(pre: &Pre, ig: InputGenerator, fail_at: usize, permanent: bool) -> CliT<FailSink> {
+    Cli::__verif_from_parts(
+        Editor::__verif_from_parts(pre.ebuf, pre.cursor, pre.valid),
+        #[cfg(feature = "history")]
+        History::__verif_from_parts(pre.hbuf, pre.hcursor, pre.hused),
+        ig,
+        PROMPTS[pre.prompt],
+        FailSink::new(fail_at, permanent),
+    )
+}
+
+/// C14 through the PUBLIC entry: `process_byte(b)` with a sink failing at a symbolic
+/// call position equals `accept(b)` + per-key entry with the same sink: same result,
+/// same editor, and - whether or not the call failed - the decoder has consumed exactly
+/// this byte ("later input is decoded normally").  The other C14 harnesses enter below
+/// `process_byte`; this one covers what `process_byte` itself does on the error path.
+#[kani::proof]
+#[kani::unwind(12)]
+fn glue_fail_ascii_v1() {
+    let pre = any_pre_valid(1);
+    let csi: bool = kani::any();
+    let last: u8 = kani::any();
+    let b: u8 = kani::any();
+    kani::assume(b < 0x80);
+    let fail_at: usize = kani::any();
+    let permanent: bool = kani::any();
+    let mk = || InputGenerator::__verif_from_parts(csi, last, Utf8Accum::default());
+    let mut cli1 = build_fail(&pre, mk(), fail_at, permanent);
+    let mut cli2 = build_fail(&pre, InputGenerator::new(), fail_at, permanent);
+    let mut calls1 = 0usize;
+    let mut calls2 = 0usize;
+    let r1 = {
+        let mut p = RawCommand::processor(|_h: &mut CliHandle<'_, FailSink, Fault>, _c: RawCommand<'_>| {
+            calls1 += 1;
+            Ok(())
+        });
+        cli1.process_byte::<RawCommand<'_>, _>(b, &mut p)
+    };
+    let mut ig = mk();
+    let r2 = {
+        let mut p = RawCommand::processor(|_h: &mut CliHandle<'_, FailSink, Fault>, _c: RawCommand<'_>| {
+            calls2 += 1;
+            Ok(())
+        });
+        match ig.accept(b) {
+            None => Ok(()),
+            Some(Input::Control(c)) => cli2.__verif_on_control::<RawCommand<'_>, _>(c, &mut p),
+            Some(Input::Char(t)) => cli2.__verif_on_text(t),
+        }
+    };
+    assert!(r1.is_err() == r2.is_err(), "C14: the error is returned by process_byte");
+    assert!(r1.is_err() == cli1.__verif_writer().failed, "C14: the call returns the error iff the sink failed during it");
+    assert!(calls1 == calls2);
+    let p1 = post(&cli1);
+    let p2 = post(&cli2);
+    assert!(p1.restored, "C14: editor and decoder are put back");
+    assert!(p1.cursor == p2.cursor && p1.valid == p2.valid, "C14: same line as the per-key entry leaves");
+    let mut i = 0;
+    while i < N {
+        if i < p1.valid {
+            assert!(p1.ebuf[i] == p2.ebuf[i], "C14: same line as the per-key entry leaves");
+        }
+        i += 1;
+    }
+    // decoder state after the byte: exactly what accept(b) leaves, error or not
+    let (c1, l1, a1) = cli1.__verif_input().unwrap().__verif_parts();
+    let (c2, l2, a2) = ig.__verif_parts();
+    assert!(c1 == c2 && l1 == l2 && a1.__verif_parts() == a2.__verif_parts(), "C14: later input is decoded normally");
+    kani::cover!(r1.is_err() && b == 0x0d, "Enter failed");
+    kani::cover!(r1.is_err() && b == 0x08, "Backspace failed");
+    kani::cover!(!r1.is_err() && cli1.__verif_writer().calls > 0, "no failure");
 }
